@@ -214,6 +214,33 @@ def confirm(c, outs):
             if o.get('ok') != want: return True, f'{prof}: tokens {o.get("ok")} instead of {want}'
     return False, 'real build agrees with the oracle'
 
+def validate(tier, seed, report):
+    """concrete literals through the MIR interpreter and through the native str::parse::<Rational>"""
+    import random, replay_client, rt, sys
+    from fractions import Fraction
+    if hasattr(sys, 'set_int_max_str_digits'): sys.set_int_max_str_digits(0)
+    from models.strings import StrS
+    from models import num as mnum_
+    rnd = random.Random(3000 + seed)
+    I = harness.interp_for('dev')
+    texts = [''.join(rnd.choice('0123456789.eE+-0011') for _ in range(rnd.randint(1, 9))) for _ in range(150 if tier == 'quick' else 1000)]
+    texts += ['1.1234e10', '-.5', '1.', '.', '1e', '0e0', '-0.0e-0', '007.50', '+3', '1e+2', '1.5e-3', '12.5E2']
+    outs = replay_client.run_profile([{'op': 'parse_rational', 'text': t} for t in texts], 'dev')
+    okc = 0
+    for t, o in zip(texts, outs):
+        I.reset([])
+        try: r = I.call('<rational::Rational as FromStr>::from_str', [VRef(Cell(StrS.from_text(t)), [])])
+        except PathEnd as e:
+            if e.kind == 'panic' and 'panic' in o: okc += 1; continue
+            raise RuntimeError(f'translator validation: {t!r}: interpreter {e.kind} {e.info}, native {o}')
+        if r.variant == 'Err':
+            if 'err' not in o: raise RuntimeError(f'translator validation: {t!r}: interpreter Err, native {o}')
+        else:
+            v = Fraction(mnum_.rat_arg(I, r.items[0]))
+            if 'ok' not in o or rt.parse_frac(o['ok']) != v: raise RuntimeError(f'translator validation: {t!r}: interpreter {v}, native {o}')
+        okc += 1
+    return okc
+
 def known_match(k, c):
     return True
 
